@@ -28,6 +28,7 @@ from typing import List, Union, Type
 import numpy as np
 
 from tangelo.linq import get_backend, Circuit
+from tangelo.toolboxes.operators import count_qubits
 from tangelo.toolboxes.qubit_mappings import statevector_mapping
 from tangelo.toolboxes.qubit_mappings.mapping_transform import fermion_to_qubit_mapping
 from tangelo.toolboxes.ansatz_generator.penalty_terms import combined_penalty
@@ -203,9 +204,13 @@ class SA_VQESolver(VQESolver):
         self.ansatz.update_var_params(var_params)
         energy = 0
         self.state_energies = list()
+        n_qubits_h = count_qubits(self.qubit_hamiltonian)
         for i, reference_circuit in enumerate(self.reference_circuits):
             full_circ = (reference_circuit + self.ansatz.circuit + self.projective_circuit if self.projective_circuit
                          else reference_circuit + self.ansatz.circuit)
+            # A reference circuit and an ansatz that drops its gates at zero parameters can be narrower than the Hamiltonian
+            if full_circ.width < n_qubits_h:
+                full_circ = Circuit(list(full_circ), n_qubits=n_qubits_h)
             state_energy = self.backend.get_expectation_value(self.qubit_hamiltonian, full_circ, **self.simulate_options)
             for circ in self.deflation_circuits:
                 overlap_circuit = circ + full_circ.inverse()
